@@ -12,7 +12,20 @@ var substTable = map[string]string{
 	"fmt.Sprintf": "Sprintf",
 }
 
+// recvIfaceSubst maps methods to models that take the receiver wrapped in an interface.
+var recvIfaceSubst = map[string]string{
+	"(*github.com/zeebo/errs.errorT).Error": "ErrsError",
+}
+
 func (e *Engine) installSubst(l *Loaded) {
+	e.recvSubst = map[string]*ssa.Function{}
+	if l.models != nil {
+		for from, to := range recvIfaceSubst {
+			if fn := l.models.Func(to); fn != nil {
+				e.recvSubst[from] = fn
+			}
+		}
+	}
 	if l.models == nil {
 		return
 	}
